@@ -223,6 +223,14 @@ fn main() -> Result<()> {
     color_eyre::install()?;
     let opt = Opt::parse();
 
+    // Verification hook (feature `verif-hooks`): print the interpreted options and exit, so
+    // install-time and upgrade-time argument lists can be compared without running a node.
+    #[cfg(feature = "verif-hooks")]
+    if std::env::var_os("ANTNODE_VERIF_DUMP_OPTS").is_some() {
+        println!("{opt:#?}");
+        return Ok(());
+    }
+
     if let Some(network_id) = opt.network_id {
         version::set_network_id(network_id);
     }
